@@ -53,11 +53,11 @@ MANIFEST = {
 ERR = {"TypeError": 1, "AttributeError": 1, "IrisPieError": 2, "IrisPieCritical": 2, "ValueError": 3, "KeyError": 4,
        "IndexError": 5}
 FREQ_LIST = [1, 2, 4, 12, 365, 0]
-NAME_POOL = ["a", "b", "c", "gdp", "cpi", "x_1", "y2", "ab", "kk", "zeta", "A", "a_b"]
+NAME_POOL = ["a", "b", "c", "gdp", "cpi", "x_1", "y2", "ab", "kk", "zeta", "A", "a_b", "_u"]
 DESC_POOL = ["", "", "", "Gross domestic product", "with, comma", 'quoted "q"', "semi; colon", "x*y", "#hash", "  spaced "]
 NAN_STRS = ["", "", "NaN", "NA", ".", "nan"]
 DELIMS = [",", ",", ",", ";", "\t", "|"]
-ROUNDS = [12, 12, 12, None, 2, 0, 5, -1]
+ROUNDS = ["default", "default", 12, None, 2, 0, 5, -1]       # "default": the round= argument is omitted
 VALUE_POOL = ([k / 4.0 for k in range(-40, 41)]
               + [1.23456789012345, 0.1, 2.675, 1e-13, 12345.678901234567, -0.000049, 0.30000000000000004,
                  -7.125e-7, 1e15 + 0.5, 3.0000000000004, 99.995])
@@ -526,6 +526,11 @@ def gen_slate_case(rng) -> dict:
         if names and rng.random() < 0.1:
             names.append(rng.choice(names))
         rng.shuffle(names)
+    if rng.random() < 0.85:     # mostly keep series of another frequency out of the selection (they raise IrisPieError)
+        other = {nm for nm, it in db if it["k"] == "ser" and it["start"] is not None and it["freq"] != fr}
+        if names is None:
+            names = list(keys)
+        names = [nm for nm in names if nm not in other]
     n = rng.randint(1, 9)
     frm = w.base[fr] + rng.randint(-5, 5)
     nvar = rng.choice([1, 1, 2, 3, 4])
@@ -668,7 +673,19 @@ def gen_csv_case(rng) -> dict:
             "delim": rng.choice(DELIMS)}
 
 
+_DEFAULT_ROUND = []
+
+
+def default_round() -> int:
+    """_DEFAULT_ROUND of databoxes/_exports.py as read by the translator (not through irispie)."""
+    if not _DEFAULT_ROUND:
+        _DEFAULT_ROUND.append(tr._exports()["round"])
+    return _DEFAULT_ROUND[0]
+
+
 def _round(x: float, r):
+    if r == "default":
+        r = default_round()
     return float(x) if r is None else float(np.round(np.float64(x), r))
 
 
@@ -686,11 +703,19 @@ def csv_tables(case) -> dict:
     freqs = sorted({it["freq"] for _, it in case["db"] if it["k"] == "ser" and it["start"] is not None}
                    | ({case["span"][0]} if case["span"] else set())
                    | ({f for f, _ in case["fspan"]} if case["fspan"] else set()))
+    need = {}
+    for _, it in case["db"]:
+        if it["k"] == "ser" and it["start"] is not None:
+            need.setdefault(it["freq"], set()).update(range(it["start"], it["start"] + len(it["rows"])))
+    if case["span"]:
+        need.setdefault(case["span"][0], set()).update(case["span"][1])
+    for f, l in (case["fspan"] or []):
+        if l:
+            need.setdefault(f, set()).update(l)
     for f in freqs:
-        if f == -1:
+        if f == -1 or f not in need:
             continue
-        b = case["base"][f]
-        for t in range(b - 12, b + 24):
+        for t in range(min(need[f]), max(need[f]) + 1):
             s = str(sc.mk_period(f, t))
             fmtp.append((f, t, s))
             parsep.append((f, s, t))
@@ -731,7 +756,9 @@ def c_tables(t) -> str:
 
 def csv_kwargs(case) -> dict:
     from irispie.dates import Frequency
-    kw = {"description_row": case["desc"], "nan_str": case["nan_str"], "round": case["round"], "delimiter": case["delim"]}
+    kw = {"description_row": case["desc"], "nan_str": case["nan_str"], "delimiter": case["delim"]}
+    if case["round"] != "default":
+        kw["round"] = case["round"]
     if case["names"] is not None:
         kw["names"] = list(case["names"])
     if case["span"] is not None:
@@ -866,11 +893,11 @@ def correspondence(ctx) -> CorrResult:
     ctx.work.mkdir(parents=True, exist_ok=True)
     import os
     dev = float(os.environ.get("C19_DEV_SCALE", "1"))
-    n_csv = max(1, int(dev * ctx.scale(220, 8000)))
-    n_imp = max(1, int(dev * ctx.scale(90, 3000)))
-    n_slate = max(1, int(dev * ctx.scale(260, 8000)))
-    n_hist = max(1, int(dev * ctx.scale(180, 6000)))
-    nops = 9
+    n_csv = max(1, int(dev * ctx.scale(160, 4000)))
+    n_imp = max(1, int(dev * ctx.scale(60, 1500)))
+    n_slate = max(1, int(dev * ctx.scale(200, 5000)))
+    n_hist = max(1, int(dev * ctx.scale(130, 3200)))
+    nops = 8
     dist = {"csv": {"delimiter": {}, "round": {}, "nan_str": {}, "blocks": {}, "options": {}, "import_errors": {}},
             "slate": {"errors": {}, "variants": {}, "with_fallbacks": 0, "with_overwrites": 0, "clip_to_base": 0},
             "ops": {"kind": {}, "errors": {}, "steps": 0},
@@ -898,7 +925,7 @@ def correspondence(ctx) -> CorrResult:
             _bump(d["import_errors"], imp.get("exc", "?").split(":")[0])
         if "err" in grid:
             res.disagreements.append(Disagreement("csv:export raises", _csv_input(case), "a grid", grid.get("exc")))
-    per = 28
+    per = 40
     for i in range(0, len(csv_items), per):
         shards.append(csv_shard(csv_items[i:i + per])); meta.append(("csv", csv_items[i:i + per]))
 
@@ -910,7 +937,10 @@ def correspondence(ctx) -> CorrResult:
         case, grid, imp = csv_items[rng.randrange(len(csv_items))]
         if "err" in grid or not grid["ok"]:
             continue
-        g2 = mutate_grid(rng, grid["ok"], case["desc"])
+        try:
+            g2 = mutate_grid(rng, grid["ok"], case["desc"])
+        except IndexError:          # a ragged sheet (only after a defect in the export): nothing to mutate
+            continue
         path = str(ctx.work / "sheet_m.csv")
         with open(path, "w", newline="") as fid:
             csv.writer(fid, delimiter=case["delim"], lineterminator="\n").writerows(g2)
@@ -924,7 +954,7 @@ def correspondence(ctx) -> CorrResult:
         imp_items.append((case, g2, out))
         if "ok" in out and out["ok"]:
             nontrivial.add("imp:" + repr(g2))
-    per = 45
+    per = 60
     for i in range(0, len(imp_items), per):
         shards.append(import_shard(imp_items[i:i + per])); meta.append(("import", imp_items[i:i + per]))
 
@@ -942,7 +972,7 @@ def correspondence(ctx) -> CorrResult:
             _bump(d["errors"], sl.get("exc", "?").split(":")[0])
         elif sl["ok"] and sl["ok"][0]:
             nontrivial.add("slate:" + repr((case["db"], case["names"], case["from"], case["n"], case["nvar"])))
-    per = 65
+    per = 100
     for i in range(0, len(sl_items), per):
         shards.append(slate_shard(sl_items[i:i + per])); meta.append(("slate", sl_items[i:i + per]))
 
@@ -958,7 +988,7 @@ def correspondence(ctx) -> CorrResult:
                 _bump(dist["ops"]["errors"], o.get("exc", "?").split(":")[0])
         if len(h["ops"]) >= 3:
             nontrivial.add("ops:" + repr(h["ops"]))
-    per = 23
+    per = 26
     for i in range(0, len(hs), per):
         shards.append(ops_shard(hs[i:i + per])); meta.append(("ops", hs[i:i + per]))
 
@@ -971,7 +1001,7 @@ def correspondence(ctx) -> CorrResult:
                 "module is compared cell by cell with the model's grid, and Databox.from_csv_file(file) with the model's "
                 "import; mutated sheets are imported by both sides. slate: Dataslate.from_databox(...).to_databox() with "
                 "random names, span, variants, fallbacks, overwrites, base columns; arrays and the written databox are "
-                "compared. ops: histories of up to 9 databox operations over 3 databoxes with random name selections "
+                "compared. ops: histories of up to 8 databox operations over 3 databoxes with random name selections "
                 "(lists, single names, predicates, renaming functions), the destination databox compared after every "
                 "step. non-trivial = at least one block and 2 data rows / a non-empty slate / 3+ executed operations; "
                 "distinct = distinct case text")
@@ -1057,44 +1087,82 @@ def falsify(ctx, hints):
             fails.append(Failure(key, what, inp, observed, required, repro))
 
     # 1. CSV round trip on the public API
-    n = ctx.scale(80, 1500)
-    for it in range(n):
-        spec = _plain_db(rng)
-        delim = rng.choice([",", ",", ";", "\t", "|"])
-        rnd = rng.choice([12, 12, None, 3])
-        desc = rng.random() < 0.5
-        nan_str = rng.choice(["", "NaN", "NA"])
-        path = str(ctx.work / "falsify.csv")
-        inp = {"db": spec, "delimiter": delim, "round": rnd, "description_row": desc, "nan_str": nan_str}
-        dkey = "comma" if delim == "," else "other-delimiter"
-        repro = (f"db.to_csv_file(f, delimiter={delim!r}, round={rnd}, description_row={desc}, nan_str={nan_str!r}); "
-                 f"Databox.from_csv_file(f, delimiter={delim!r}, description_row={desc})")
+    path = str(ctx.work / "falsify.csv")
+
+    def csv_check(inp):
+        """None when the round trip is lossless, else (key suffix, what, observed, required)."""
+        delim, rnd, desc, nan_str = inp["delimiter"], inp["round"], inp["description_row"], inp["nan_str"]
         try:
-            db = mk_db(spec)
+            db = mk_db(inp["db"])
             with warnings.catch_warnings():
                 warnings.simplefilter("ignore")
                 db.to_csv_file(path, delimiter=delim, round=rnd, description_row=desc, nan_str=nan_str)
                 back = ir.Databox.from_csv_file(path, delimiter=delim, description_row=desc)
-            info["csv_roundtrips"] += 1
         except Exception as e:  # noqa
-            add(f"csv:roundtrip-raises:{dkey}", f"CSV round trip raises {type(e).__name__}: {e}"[:200], inp,
-                f"{type(e).__name__}: {e}"[:200], "the databox read back", repro)
-            continue
+            return ("roundtrip-raises", f"CSV round trip raises {type(e).__name__}: {e}"[:200],
+                    f"{type(e).__name__}: {e}"[:200], "the databox read back")
         if sorted(back.keys()) != sorted(db.keys()):
-            add(f"csv:names:{dkey}", "names differ after the CSV round trip", inp, sorted(back.keys()), sorted(db.keys()), repro)
-            continue
+            return ("names", "names differ after the CSV round trip", sorted(back.keys()), sorted(db.keys()))
         for name in db.keys():
             x, y = db[name], back[name]
             want = x.data if rnd is None else np.round(x.data, rnd)
             if y.frequency != x.frequency or y.start != x.start or y.data.shape != x.data.shape:
-                add(f"csv:span:{dkey}", f"frequency/span/variants of {name!r} differ after the CSV round trip", inp,
-                    [str(y.frequency), str(y.start), list(y.data.shape)], [str(x.frequency), str(x.start), list(x.data.shape)], repro)
-            elif not _same_values(y.data, want):
-                add(f"csv:values:{dkey}", f"values of {name!r} differ after the CSV round trip", inp, y.data.tolist(),
-                    want.tolist(), repro)
-            elif desc and y.get_description() != x.get_description():
-                add(f"csv:description:{dkey}", f"description of {name!r} differs after the CSV round trip", inp,
-                    y.get_description(), x.get_description(), repro)
+                return ("span", f"frequency/span/variants of {name!r} differ after the CSV round trip",
+                        [str(y.frequency), str(y.start), list(y.data.shape)],
+                        [str(x.frequency), str(x.start), list(x.data.shape)])
+            if not _same_values(y.data, want):
+                return ("values", f"values of {name!r} differ after the CSV round trip", y.data.tolist(), want.tolist())
+            if desc and y.get_description() != x.get_description():
+                return ("description", f"description of {name!r} differs after the CSV round trip",
+                        y.get_description(), x.get_description())
+        return None
+
+    def csv_shrink(inp, kind):
+        """Greedy reduction of a failing input (fewer series, fewer rows, plainer options), same failure kind."""
+        def still(c):
+            r = csv_check(c)
+            return r is not None and r[0] == kind
+        cur = dict(inp)
+        changed = True
+        while changed:
+            changed = False
+            for i in range(len(cur["db"])):
+                if len(cur["db"]) > 1:
+                    c = dict(cur, db=cur["db"][:i] + cur["db"][i + 1:])
+                    if still(c):
+                        cur, changed = c, True
+                        break
+            else:
+                for i, (nm, it) in enumerate(cur["db"]):
+                    if len(it["rows"]) > 1:
+                        it2 = dict(it, rows=it["rows"][:-1])
+                        if all(v != v for v in it2["rows"][-1]):
+                            continue
+                        c = dict(cur, db=cur["db"][:i] + [[nm, it2]] + cur["db"][i + 1:])
+                        if still(c):
+                            cur, changed = c, True
+                            break
+        for k, v in (("description_row", False), ("nan_str", ""), ("round", 12)):
+            c = dict(cur, **{k: v})
+            if cur[k] != v and still(c):
+                cur = c
+        return cur
+
+    n = ctx.scale(80, 1500)
+    for it in range(n):
+        inp = {"db": _plain_db(rng), "delimiter": rng.choice([",", ",", ";", "\t", "|"]), "round": rng.choice([12, 12, None, 3]),
+               "description_row": rng.random() < 0.5, "nan_str": rng.choice(["", "NaN", "NA"])}
+        dkey = "comma" if inp["delimiter"] == "," else "other-delimiter"
+        r = csv_check(inp)
+        info["csv_roundtrips"] += 1
+        if r is None or any(f.key == f"csv:{r[0]}:{dkey}" for f in fails):
+            continue
+        small = csv_shrink(inp, r[0])
+        r = csv_check(small) or r
+        repro = (f"db.to_csv_file(f, delimiter={small['delimiter']!r}, round={small['round']}, "
+                 f"description_row={small['description_row']}, nan_str={small['nan_str']!r}); "
+                 f"Databox.from_csv_file(f, delimiter={small['delimiter']!r}, description_row={small['description_row']})")
+        add(f"csv:{r[0]}:{dkey}", r[1], small, r[2], r[3], repro)
         if len(fails) > 12:
             break
 
